@@ -1,0 +1,26 @@
+//go:build verif
+
+/*
+Copyright The ORAS Authors.
+Licensed under the Apache License, Version 2.0 (the "License");
+you may not use this file except in compliance with the License.
+You may obtain a copy of the License at
+
+http://www.apache.org/licenses/LICENSE-2.0
+
+Unless required by applicable law or agreed to in writing, software
+distributed under the License is distributed on an "AS IS" BASIS,
+WITHOUT WARRANTIES OR CONDITIONS OF ANY KIND, either express or implied.
+See the License for the specific language governing permissions and
+limitations under the License.
+*/
+
+// Package verifhook exists only under the build tag "verif": it lets the
+// verification harness (another module) install the handler of the internal
+// scheduling points.
+package verifhook
+
+import "oras.land/oras-go/v2/internal/verifhook"
+
+// Set installs the handler called at every scheduling point; nil removes it.
+func Set(h func(name string)) { verifhook.Set(h) }
